@@ -1,4 +1,5 @@
 import Proofs.SqlTextFixed
+import Proofs.SqlAttrNames
 
 set_option linter.unusedSimpArgs false
 
@@ -307,8 +308,8 @@ theorem popInstance_last (u : UC) (k : Name) (attrs' : List (Name × Name)) (pre
   have hc := positionalCells_ok u ⟨k, attrs', [], [], R⟩ attrs' t hcells
   have hcong : specCells u ⟨k, attrs', [], [], R⟩ attrs' t = specCells u ⟨k, attrs', [], [], []⟩ attrs' t := by
     apply specCells_congr; rfl
-  simp only [popInstance, isNamed, Bool.false_and, Bool.false_eq_true, if_false, ensureClass, hf, hnew, Bool.not_true, cellsOf,
-    hc, hcong]
+  simp only [popInstance, isNamed, Bool.false_and, Bool.false_eq_true, if_false, inferOk_positional, ensureClass, hf, hnew,
+    Bool.not_true, cellsOf, hc, hcong]
   rw [update_pre_last u k pre _ as _ hpre rfl]
 
 theorem popInstances_block_tail (u : UC) (k : Name) (attrs' : List (Name × Name))
@@ -341,7 +342,8 @@ theorem popInstances_block (u : UC) (k : Name) (t1 : List Text) (ts : List (List
   have hfirst : popInstance u ⟨pre, as⟩ k t1 none =
       popInstance u ⟨pre ++ [⟨k, inferredAttrs u (positionalNames t1.length) t1, [], [], []⟩], as⟩ k t1 none := by
     have hf := find?_pre_last u k pre ⟨k, inferredAttrs u (positionalNames t1.length) t1, [], [], []⟩ as hpre rfl
-    simp only [popInstance, isNamed, Bool.false_and, Bool.false_eq_true, if_false, ensureClass, hnone, hf]
+    simp only [popInstance, isNamed, Bool.false_and, Bool.false_eq_true, if_false, inferOk_positional, Bool.not_true,
+      ensureClass, inferredFor, hnone, hf]
   simp only [List.map_cons, List.cons_append, popInstances, hfirst,
     popInstance_last u k _ pre [] as t1 hpre hrow (hcells t1 (by simp))]
   rw [popInstances_block_tail u k _ hrow ts pre _ as rest hpre (fun x hx => hcells x (by simp [hx]))]
@@ -672,7 +674,7 @@ theorem closed_inferred (u : UC) (m : MM) (hm : m.Closed u) : (m.inferred u).Clo
     intro c' hc'
     simp only [MM.inferred, List.mem_map, List.mem_filter] at hc'
     obtain ⟨c, ⟨hc, _⟩, rfl⟩ := hc'; exact ⟨c, hc, rfl⟩
-  refine ⟨?_, ?_, ?_, ?_, ?_⟩
+  refine ⟨?_, ?_, ?_, ?_, ?_, ?_⟩
   · simp only [MM.inferred, List.map_map]
     have : (m.classes.filter fun c => !c.rows.isEmpty).map ((fun c => u.upper c.kind) ∘ inferClass u) =
         (m.classes.filter fun c => !c.rows.isEmpty).map (fun c => u.upper c.kind) := rfl
@@ -691,6 +693,20 @@ theorem closed_inferred (u : UC) (m : MM) (hm : m.Closed u) : (m.inferred u).Clo
     obtain ⟨r0, hr0, rfl⟩ := hr
     show (inferVals u c.attrs r0).length = (inferAttrs u c.attrs).length
     rw [inferVals_length u c.attrs r0 (hm.rows c hc r0 hr0), inferAttrs_length]
+  · intro c' hc'
+    obtain ⟨c, _, rfl⟩ := hmem c' hc'
+    show attrNamesOk u (inferAttrs u c.attrs) = true
+    rw [attrNamesOk_iff]
+    have : (inferAttrs u c.attrs).map (fun a => u.upper a.1) = (positionalNames c.attrs.length).map u.upper := by
+      have h1 : (inferAttrs u c.attrs).map (fun a => u.upper a.1) = ((inferAttrs u c.attrs).map (fun a => a.1)).map u.upper := by
+        rw [List.map_map]; rfl
+      rw [h1]
+      have h2 : (inferAttrs u c.attrs).map (fun a => a.1) = positionalNames c.attrs.length := by
+        unfold inferAttrs
+        exact List.map_fst_zip (by simp [positionalNames])
+      rw [h2]
+    rw [this]
+    exact positionalNames_upper_nodup u c.attrs.length
 
 /-- inferring again changes nothing -/
 theorem inferred_idem (u : UC) (m : MM) (hm : m.Closed u) : (m.inferred u).inferred u = m.inferred u := by
